@@ -326,6 +326,22 @@ func planKey(r *rand.Rand, idx int, maxTTL int) *keyPlan {
 		p.follow = "RENAME of a key without deadline onto it (removes deadline)"
 		p.setup = append(p.setup, createCmd(p.typ, k+":src"), cmdOf("RENAME", k+":src", k))
 		p.control = true
+	case 13, 14:
+		// a deadline centuries away replaces the near one: the key must simply stay (timer arithmetic on such
+		// distances is where it can go wrong); all values keep now+ttl inside the 63-bit range
+		huge := []string{"9223372037", "9999999999", "99999999999", "999999999999", "9223372036", "18446744074"}[r.Intn(6)]
+		p.control = true
+		switch {
+		case p.typ == "string" && r.Intn(3) == 0:
+			p.follow = "SET EX centuries ahead (replaces deadline)"
+			p.setup = append(p.setup, cmdOf("SET", k, "15", "EX", huge))
+		case p.typ == "string" && r.Intn(2) == 0:
+			p.follow = "SETEX centuries ahead (replaces deadline)"
+			p.setup = append(p.setup, cmdOf("SETEX", k, huge, "16"))
+		default:
+			p.follow = "EXPIRE centuries ahead (replaces deadline)"
+			p.setup = append(p.setup, cmdOf("EXPIRE", k, huge))
+		}
 	case 12:
 		// a value with a far deadline renamed onto this key brings its own deadline
 		p.follow = "RENAME of a key with a far deadline onto it (replaces deadline)"
